@@ -133,7 +133,8 @@ Qed.
 
 Lemma hit_array : forall r2 v r3 f2,
   dec_value tyB r2 = Ok (v, r3) ->
-  exists sub vs buf, v = VArr sub vs /\ raw_cigar (S f2) (fst CG :: snd CG :: tyB :: r2) = Some buf /\
+  exists sub vs buf, v = VArr sub vs /\
+    raw_cigar (S f2) (fst CG :: snd CG :: tyB :: r2) = (if sub =? tyI then Some buf else None) /\
     (sub = tyI -> chunk_ops buf = dec_u32_ops vs /\ lenN buf mod 4 = 0).
 Proof.
   intros r2 v r3 f2 H.
@@ -192,8 +193,10 @@ Qed.
 Lemma walk : forall f bs acc dt f2, dec_data f bs acc = Ok dt -> find_tag CG acc = None ->
   (f <= f2)%nat ->
   match find_tag CG dt with
-  | Some (VArr sub vs) => exists buf, raw_cigar f2 bs = Some buf /\
-                            (sub = tyI -> chunk_ops buf = dec_u32_ops vs /\ lenN buf mod 4 = 0)
+  | Some (VArr sub vs) =>
+      if sub =? tyI
+      then exists buf, raw_cigar f2 bs = Some buf /\ chunk_ops buf = dec_u32_ops vs /\ lenN buf mod 4 = 0
+      else raw_cigar f2 bs = None
   | _ => raw_cigar f2 bs = None
   end.
 Proof.
@@ -216,7 +219,8 @@ Proof.
         destruct (ty =? tyB) eqn:Eb.
         -- apply N.eqb_eq in Eb. subst ty.
            destruct (hit_array _ _ _ f2 Hv) as (sub & vs & buf & Hvv & Hrc & Hc). subst v.
-           exists buf. split; [exact Hrc|exact Hc].
+           destruct (sub =? tyI) eqn:Es; [|exact Hrc].
+           apply N.eqb_eq in Es. destruct (Hc Es) as [Hc1 Hc2]. exists buf. repeat split; assumption.
         -- destruct (skip_value _ _ _ _ f2 67 71 Hv Eb) as [Hs Hna]. rewrite Hs.
            pose proof (walk_noCG _ _ _ _ f2 Hd Hacc') as Hn.
            destruct v as [ty' z|ty' s|sub vs]; [exact Hn|exact Hn|exfalso; exact (Hna sub vs eq_refl)].
@@ -248,9 +252,8 @@ Proof.
   pose proof (chunk_ops_two _ _ H8 G2) as Hcig. subst cig.
   unfold resolve in G4. rewrite H1, G5, H2, H3 in G4. cbn [andb] in G4.
   destruct (find_tag CG dt) as [[ty z|ty s|sub vs]|]; try discriminate G4.
-  - destruct W as (buf & Hrc & Hcw). rewrite Hrc.
-    destruct (sub =? tyI) eqn:Es; [|discriminate G4]. apply N.eqb_eq in Es.
-    destruct (Hcw Es) as [Hco Hm]. unfold cigar_iter. destruct (lenN buf mod 4 =? 0) eqn:E4; [|lia].
+  - destruct (sub =? tyI) eqn:Es; [|discriminate G4].
+    destruct W as (buf & Hrc & Hco & Hm). rewrite Hrc. unfold cigar_iter. destruct (lenN buf mod 4 =? 0) eqn:E4; [|lia].
     rewrite Hco. destruct (dec_u32_ops vs) as [ops|]; cbn [bindr] in G4; [|discriminate G4].
     injection G4 as Hops _. subst ops. reflexivity.
   - rewrite W. rewrite (cigar_iter_words _ _ Hl). rewrite G2. injection G4 as Hcg _. rewrite <- Hcg. reflexivity.
